@@ -1112,6 +1112,11 @@ func (db *DB) handleMemTableFlush(mt *memTable, dropPrefixes [][]byte) error {
 	if err != nil {
 		return y.Wrap(err, "error while creating table")
 	}
+	// The MANIFEST is about to name this table: make its directory entry durable first.
+	if err := db.syncDir(db.opt.Dir); err != nil {
+		_ = tbl.DecrRef()
+		return y.Wrap(err, "error while syncing the directory of a new table")
+	}
 	verifhook.Point("flush.beforeAdd")
 	// We own a ref on tbl.
 	err = db.lc.addLevel0Table(tbl) // This will incrRef
